@@ -326,7 +326,7 @@ type OrdSpec struct {
 	Instr func(cx *Ctx, ins ssa.Instruction, f *Fact)
 	// Load lets the rule give an abstract value to a load / call result.
 	Value func(cx *Ctx, v ssa.Value, f *Fact) (AV, bool)
-	// OnBranch is invoked on each taken edge of an If whose condition is not decided.
+	// OnBranch is invoked on each taken edge of an If (decided or not).
 	OnBranch func(cx *Ctx, ifi *ssa.If, truth bool, f *Fact)
 	// OnReturn is invoked at every return of the *root* frame.
 	OnReturn func(cx *Ctx, ret *ssa.Return, class RetClass, f *Fact)
@@ -382,6 +382,8 @@ func (e *OrdEngine) RunRoot(fn *ssa.Function, init *Fact) []exitRec {
 	if init == nil {
 		init = newFact()
 	}
+	// summaries are per root: obligations raised inside callees are keyed by root
+	e.memo = map[string][]exitRec{}
 	fr := &Frame{Fn: fn, Params: make([]AV, len(fn.Params)), Binds: make([]AV, len(fn.FreeVars))}
 	return e.analyse(fr, init)
 }
@@ -879,9 +881,17 @@ func (e *OrdEngine) analyse(fr *Frame, entry *Fact) []exitRec {
 					cx := &Ctx{E: e, Fr: fr, P: e.P}
 					switch a.K {
 					case avTrue:
-						e.flow(b, b.Succs[0], f.clone(), fr, push)
+						g := f.clone()
+						if e.Spec.OnBranch != nil {
+							e.Spec.OnBranch(cx, x, true, g)
+						}
+						e.flow(b, b.Succs[0], g, fr, push)
 					case avFalse:
-						e.flow(b, b.Succs[1], f.clone(), fr, push)
+						g := f.clone()
+						if e.Spec.OnBranch != nil {
+							e.Spec.OnBranch(cx, x, false, g)
+						}
+						e.flow(b, b.Succs[1], g, fr, push)
 					default:
 						ft := f.clone()
 						e.refine(x.Cond, true, fr, ft)
